@@ -34,7 +34,7 @@ pub fn defs() -> Vec<PropDef> {
                 Ok(())
             },
             rule: "(i) every message input of the wire sweep W0-W6 that carries a Length field and holds at least that many octets is cut to its declared length b and decoded as b and as b++s for 8 suffixes s (1-64 octets: 00, ff, a flag word, stray octets, a valid AVP header, 64 x 00 / ff / valid AVPs) under the strict and the empty option set; (ii) every sequence of up to 3 (quick) / 4 (thorough) messages over a 14-message menu, encoded back to back by the reference encoder and decoded repeatedly from one SliceReader and one monitored reader; (iii) every sequence of up to 4 / 5 records of the record menu compared with the concatenation of the per-record results. Non-trivial: (i) the cut input is accepted, (ii)(iii) the sequence has at least two elements.",
-            bounds: |t| json!({"suffixes": 8, "message_menu": 14, "max_messages": if t.thorough() {4} else {3}, "record_menu": 20, "max_records": if t.thorough() {5} else {4}}),
+            bounds: |t| json!({"suffixes": 8, "message_menu": 14, "max_messages": if t.thorough() {4} else {3}, "record_menu": gen::record_menu().len(), "max_records": if t.thorough() {5} else {4}}),
             assumptions: COMMON_ASSUMPTIONS,
             fd_monitor: false,
             mem_gb: mem4,
@@ -98,6 +98,25 @@ fn declared_length(b: &[u8]) -> Option<usize> {
     Some((((b[2] as u16) << 8) | b[3] as u16) as usize)
 }
 
+fn data_header_len(b: &[u8]) -> usize {
+    let flags = ((b[0] as u16) << 8) | b[1] as u16;
+    let mut n = 6;
+    if flags & spec::F_L != 0 {
+        n += 2;
+    }
+    if flags & spec::F_S != 0 {
+        n += 4;
+    }
+    if flags & spec::F_O != 0 {
+        n += 2;
+        // the offset padding belongs to what the header parser consumes
+        if b.len() >= n {
+            n += (((b[n - 2] as usize) << 8) | b[n - 1] as usize).min(70_000);
+        }
+    }
+    n
+}
+
 fn dec_rem(bytes: &[u8], opts: Option<u8>) -> Option<(run::MsgOut, usize)> {
     let (r, obs) = run::decode_msg(ReaderKind::R2a, bytes, opts, false);
     if !obs.mon.as_ref().unwrap().violations.is_empty() {
@@ -146,7 +165,14 @@ fn check_suffix(ctx: &mut Ctx, b: &[u8], opts: Option<u8>) {
                     );
                 }
             }
-            (Err(_), Err(_)) => (),
+            (Err(e0), Err(e1)) => {
+                // when the declared length covers at least the fixed header, the cut input holds
+                // every octet the header parser looks at, so the errors themselves must agree
+                let hdr = if is_control { 12 } else { data_header_len(b) };
+                if b.len() >= hdr && e0 != e1 {
+                    viol(ctx, "suffix-changes-error-list", format!("alone rejected with {e0:?}, followed by suffix #{i} with {e1:?}"));
+                }
+            }
             (Ok(m), Err(e)) => viol(ctx, "suffix-turns-accept-into-reject", format!("accepted {m:?} alone, rejected with {e:?} when followed by suffix #{i}")),
             (Err(e), Ok(m)) => viol(ctx, "suffix-turns-reject-into-accept", format!("rejected with {e:?} alone, accepted as {m:?} when followed by suffix #{i}")),
         }
